@@ -175,7 +175,20 @@ class C03(Spec):
 class C06(Spec):
     functions = CORE_FUNCS
     def queries(self, tier, bld):
-        return [core_q('C06.verdict.L12', ['PROP_C06'], L=12)]
+        qs = [core_q('C06.verdict.L12', ['PROP_C06'], L=12)]
+        # memory safety + leak balance of the whole verify path, exact (end-aligned) allocator
+        q = core_q('C06.core.mem.L8', ['PROP_C06_MEM', 'VF_EXACT_END', 'VJ_CHECK_DEAD', 'PV_MACLEN=1', 'NO_CB'], L=8, budget=900)
+        q.checks = 'memsafe-noconv'
+        q.defines = [d for d in q.defines if d != 'VF_FREE_NOOP']
+        q.mem_gb = 10
+        qs.append(q)
+        # the codec under the exact allocator (shared with C11) and both provider verify units
+        qs.append(Query('C06.codec.decode.M16', 'codec.c', CODEC_UNITS, models=['alloc', 'jansson_model', 'env'],
+                        defines=['SIDE_DECODE', 'M=16', 'VF_EXACT_END', 'VF_CAP=24'], unwind=22, checks='memsafe-noconv', bounds={'M': 16}))
+        qs.append(gnutls_q('C06.gnutls.verify.mem', ['SIDE_VERIFY']))
+        qs.append(ossl_q('C06.ossl.verify.mem', ['SIDE_VERIFY', 'NOT_ES']))
+        qs.append(ossl_q('C06.ossl.verify.mem.ES256', ['SIDE_VERIFY', 'ONLY_ALG=JWT_ALG_ES256'], budget=900))
+        return qs
 
 
 class C14(Spec):
@@ -199,6 +212,7 @@ class C04(Spec):
         return qs
 
 
+CODEC_UNITS = ['libjwt/jwt.c', 'libjwt/jwt-memory.c', 'libjwt/base64.c']
 GATE_UNITS = ['libjwt/jwt.c', 'libjwt/jwt-memory.c', 'libjwt/base64.c']
 
 
@@ -242,9 +256,6 @@ class C19(Spec):
               core_q('C19.cb.ops2.L12', ['PROP_C19', 'CB_MUTATES', 'CB_OPS=2', 'PV_TAPE', 'CLOCK_RANGE'], L=12, budget=1800, tiers=('thorough',)),
               core_q('C19.cb.admit.L12', ['PROP_C19_ADMIT'], L=12)]
         return qs
-
-
-CODEC_UNITS = ['libjwt/jwt.c', 'libjwt/jwt-memory.c', 'libjwt/base64.c']
 
 
 class C11(Spec):
@@ -343,7 +354,7 @@ class C07(Spec):
 
     def queries(self, tier, bld):
         routes = ['create', 'load', 'load_strn', 'fromfile', 'fromfp', 'create_strn']
-        shapes = ['notjson', 'nonobject', 'single', 'keys_nonarray', 'keys0', 'keys1', 'keys2']
+        shapes = ['notjson', 'nonobject', 'single', 'keys_nonarray', 'keys0', 'keys1', 'keys2', 'keys2scalar']
         b = {'document': 'not JSON | any non-object top level | single JWK object | keys of any non-array type | keys array of 0,1,2 elements of any type',
              'JWK members': 'kty,k,alg,kid each absent or of any JSON type (use, key_ops: query C07.values); strings <= 6 arbitrary bytes'}
         qs = []
@@ -356,8 +367,8 @@ class C07(Spec):
             return q
         heavy = ('single', 'keys1', 'keys2')
         for sh, sn in enumerate(shapes):
-            if sn == 'keys2':
-                continue
+            if sn == 'keys2' or (sn == 'keys1' and tier == 'quick'):
+                continue        # keys1: 760 s / 6.8 GB, keys2: > 29 GB - thorough tier
             # functional obligations for every shape on the create route (verdict mode)
             qs.append(mk(sh, sn, 0, 'create', 0, 'verdict', 7 if sn in heavy else 2))
             # all other entry points: cheap shapes always, the single-JWK shape in the thorough tier
@@ -368,9 +379,10 @@ class C07(Spec):
                     qs.append(mk(sh, sn, rt, rn, 0, 'verdict', 7 if sn in heavy else 2))
         # memory safety (CBMC pointer/bounds/overflow checks + exact ownership balance)
         qs.append(mk(2, 'single', 0, 'create', 0, 'memsafe-noconv', 11))
-        qs.append(mk(5, 'keys1', 1, 'load', 1, 'memsafe-noconv', 12))
-        for sn in ('notjson', 'nonobject', 'keys_nonarray', 'keys0'):
-            qs.append(mk(shapes.index(sn), sn, 1, 'load', 1, 'memsafe-noconv', 3))
+        if tier == 'thorough':
+            qs.append(mk(5, 'keys1', 1, 'load', 1, 'memsafe-noconv', 14))      # 540 s, 10.9 GB
+        for sn in ('notjson', 'nonobject', 'keys_nonarray', 'keys0', 'keys2scalar'):
+            qs.append(mk(shapes.index(sn), sn, 1, 'load', 1, 'memsafe-noconv', 10 if sn in ('nonobject', 'keys2scalar') else 3))
         if tier == 'thorough':
             q = mk(6, 'keys2', 0, 'create', 0, 'verdict', 40)
             q.budget = 5400
@@ -427,14 +439,15 @@ class C20(Spec):
                     continue
                 if tier == 'quick' and stdin and n not in (1, 2):
                     continue
-                d = ['SIDE_EXIT', 'NTOK=%d' % n, 'VF_FREE_NOOP'] + (['STDIN'] if stdin else []) + (['QUIET'] if n % 2 else [])
-                q = Query('C20.exit.n%d.%s' % (n, 'stdin' if stdin else 'argv'), 'tool_verify.c', TOOLV_UNITS, models=TOOL_MODELS,
-                          defines=d, unwind=16, checks='verdict', budget=600,
-                          bounds={'tokens': n, 'route': 'stdin' if stdin else 'argv', 'verdict vectors': 'all 2^%d' % n})
-                q.unwindset = {'tool_main.%d' % k: max(17, n + 2) for k in range(4)}
-                q.unwindset['main.0'] = n + 2
-                q.unit_override = {'tools/jwt-verify.c': tool_gb}
-                qs.append(q)
+                for quiet in ((0, 1) if n in (256, 512) else (n % 2,)):
+                    d = ['SIDE_EXIT', 'NTOK=%d' % n, 'VF_FREE_NOOP'] + (['STDIN'] if stdin else []) + (['QUIET'] if quiet else [])
+                    q = Query('C20.exit.n%d.%s%s' % (n, 'stdin' if stdin else 'argv', '.quiet' if quiet else ''), 'tool_verify.c', TOOLV_UNITS, models=TOOL_MODELS,
+                              defines=d, unwind=16, checks='verdict', budget=600,
+                              bounds={'tokens': n, 'route': 'stdin' if stdin else 'argv', 'verdict vectors': 'all 2^%d' % n})
+                    q.unwindset = {'tool_main.%d' % k: max(17, n + 2) for k in range(4)}
+                    q.unwindset['main.0'] = n + 2
+                    q.unit_override = {'tools/jwt-verify.c': tool_gb}
+                    qs.append(q)
         opts = usage_options(os.path.join(REPO, 'tools/jwt-verify.c'))
         write_opts_header(os.path.join(bld.gen, 'c20_verify_opts.h'), opts)
         names = ['short', 'short_detached', 'long', 'long_detached']
@@ -474,6 +487,8 @@ class C18(Spec):
             q.unwindset = {}
             q.bounds['statics enumerated'] = [x['name'] + (' (local to %s)' % x['local_in'] if x['local_in'] else '') for x in listed]
             qs.append(q)
+        # provider units: no use of library entry points documented as not thread-safe (static result buffers)
+        qs.append(ossl_q('C18.ossl.sign', ['SIDE_SIGN']))
         return qs
 
 
